@@ -86,7 +86,7 @@ def numeration(ctx, R, total=False):
     R.saw(f)
     ws = [n for n in f.node.body if isinstance(n, ast.While)]
     if len(ws) != 1:
-        R.undecided("C20.NUMERATION", f.qual + "|shape", where(f), "int2name is not a single digit loop: the congruence analysis does not apply (names must enumerate A..Z, AA.. in order without collisions)")
+        R.bad("C20.NUMERATION", f.qual + "|shape", where(f), "int2name is not a single digit loop: the numeration cannot be shown to be bijective base 26 (names must enumerate A..Z, AA.. in order without collisions)")
         return
     w = ws[0]
     ipar = f.params[0]
